@@ -148,10 +148,44 @@ def doc_mix(rng: random.Random, n: int, noisy=0.3, mutated=0.3):
 
 # ---------------------------------------------------------------- parse stream
 
+ABORTING = ["Feature: f\n  Scenario: s\n    Given x\n      | a | b |\n      | c |\n  @t\n  @u\n\n  # c\n  Scenario: stale\n    Given y\n",
+            "Feature: f\n  Scenario Outline: s\n    Given <a>\n    Examples:\n      | a |\n      | 1 | 2 |\n    @t\n    @u\n    Examples: stale\n      | a |\n",
+            "Feature: f\n" + "".join(f"  bad line {i_}\n  Scenario: s{i_}\n" for i_ in range(10)) +
+            "    Given x\n      | a | b |\n      | c |\n  @t\n  @u\n  Scenario: stale\n    Given y\n",
+            "Feature: ghost\n  @a b\n  @t\n  Scenario: s\n"]
+CLEAN = ["Feature: after\n  Scenario: clean\n    Given z\n", "Scenario: headless\n  Given z\n", ""]
+
+
+def abort_probe(res: "Result"):
+    """Process-wide state after ABORTED parses (implementation-only history oracle, run by every parse-based check):
+    parses that abort while the look-ahead queue still holds lines — a builder error raised by the tag line that closes a
+    ragged table, in stop mode or as the eleventh error; a tag error inside a look-ahead — through fresh and reused
+    Parser objects, must not change what ANY later parse (fresh objects, either mode) returns."""
+    def snap():
+        return [impl.parse(c_, st_) for c_ in CLEAN for st_ in (False, True)]
+    before = snap()
+    reused = impl.Parser(impl.RecordingBuilder(impl.id_gen(0)))
+    for a_ in ABORTING:
+        for st_ in (True, False):
+            for parser_ in (None, reused):
+                impl.parse(a_, st_, parser=parser_, fresh_ids=parser_ is not None)
+                after = snap()
+                res.note({"aborted": a_, "stop": st_, "reused_parser": parser_ is not None}, True)
+                if after != before:
+                    k_ = next(i_ for i_, (x_, y_) in enumerate(zip(before, after)) if x_ != y_)
+                    res.fail("history", {"source": CLEAN[k_ // 2], "stop": bool(k_ % 2), "default_dialect": "en",
+                                         "after_aborted_parse_of": a_, "aborted_in_stop_mode": st_, "reused_parser": parser_ is not None},
+                             after[k_], before[k_], "a parse with FRESH objects returns something else after an earlier parse was aborted "
+                             "(state survives outside the Parser / TokenMatcher instances): " + str(first_diff(after[k_], before[k_])))
+                    return
+
+
 def parse_stream(docs, project, stream="parse", modes=(False, True), dialects=("en",), known=None,
                  nontrivial=lambda i: True, shared=True) -> Result:
     """impl.parse vs model parse under `project(outcome) -> comparable`."""
     res = Result()
+    if shared:
+        abort_probe(res)
     hist = {}
     cases = []
     for src in docs:
